@@ -143,19 +143,113 @@ Theorem collapse_conserves : forall t a lab (min_group : Z) (norm incl : bool) (
 Proof. exact PartitionProofs.collapse_conserves. Qed.
 Print Assumptions collapse_conserves.
 
-(* refusals: an unknown one_to_many_mode (ValueError), a rejected dict, and - as the code stands - the
-   case where no label reaches min_group_size while the other axis is not empty (the constructor's
-   size check raises TableException on the 0 x 0 matrix) *)
+(* the only refusals: an unknown one_to_many_mode (ValueError) and a rejected dict *)
 Theorem collapse_o2o_refuses : forall t a lab (min_group : Z) (norm incl : bool) (mode e : Z),
-  wf t ->
-  (collapse_t t a (OneToOne lab min_group) norm incl mode = RErr e <->
-   (mode_ok mode = false /\ e = E_VALUE) \/
-   (mode_ok mode = true /\ lab_error lab = Some e) \/
-   (mode_ok mode = true /\ lab_error lab = None /\ e = E_TABLE /\ ids (other a) t <> [] /\
-    forall l, In l (labels_of lab (ids a t)) ->
-      (Z.of_nat (length (select (map (Z.eqb l) (labels_of lab (ids a t))) (ids a t))) < min_group)%Z)).
+  collapse_t t a (OneToOne lab min_group) norm incl mode = RErr e <->
+  (mode_ok mode = false /\ e = E_VALUE) \/ (mode_ok mode = true /\ lab_error lab = Some e).
 Proof. exact PartitionProofs.collapse_o2o_refuses. Qed.
 Print Assumptions collapse_o2o_refuses.
+
+(* no label reaches min_group_size: the empty table over the complete other axis *)
+Theorem collapse_below_min : forall t a lab (min_group : Z) (norm incl : bool) (mode : Z) (c : collapsed),
+  wf t -> collapse_t t a (OneToOne lab min_group) norm incl mode = ROk c ->
+  (forall l, In l (labels_of lab (ids a t)) ->
+     (Z.of_nat (length (select (map (Z.eqb l) (labels_of lab (ids a t))) (ids a t))) < min_group)%Z) ->
+  ids a (ctab c) = [] /\ ids (other a) (ctab c) = ids (other a) t /\ wf (ctab c).
+Proof. exact PartitionProofs.collapse_below_min. Qed.
+Print Assumptions collapse_below_min.
+
+(* ---------------- collapse, one-to-many ----------------
+   yields = per id of the axis (in id order) the (pathway, group) pairs the user generator yields;
+   mult g p = how many of the pairs p name group g; the divisor of every collapsed vector is
+   K = 1 ('add') or the least common multiple of the non-zero pair counts ('divide'), and a vector
+   with d pairs contributes with weight K / d, i.e. counts / d after division by K. *)
+Theorem o2m_ids : forall t a (yields : list (list (Tree * Z))) (raises : list bool) (strict : bool) (key : Tree)
+                         (norm incl : bool) (mode : Z) (c : collapsed),
+  wf t -> collapse_t t a (OneToMany yields raises strict key) norm incl mode = ROk c ->
+  StronglySorted Z.lt (ids a (ctab c)) /\
+  (forall g, In g (ids a (ctab c)) <-> exists p pw, In p yields /\ In (pw, g) p) /\
+  ids (other a) (ctab c) = ids (other a) t /\
+  (forall y, md_view (other a) (ctab c) y = md_view (other a) t y) /\
+  ttype (ctab c) = ttype t /\
+  cdiv c = repeat (o2m_k (Z.eqb mode 1) yields) (length (ids a (ctab c))) /\
+  (0 < o2m_k (Z.eqb mode 1) yields)%Z /\ mds a t <> None /\ norm = false.
+Proof. exact PartitionProofs.o2m_ids. Qed.
+Print Assumptions o2m_ids.
+
+Theorem o2m_value : forall t a (yields : list (list (Tree * Z))) (raises : list bool) (strict : bool) (key : Tree)
+                           (norm incl : bool) (mode : Z) (c : collapsed),
+  wf t -> collapse_t t a (OneToMany yields raises strict key) norm incl mode = ROk c ->
+  forall g y : Z, In g (ids a (ctab c)) -> In y (ids (other a) t) ->
+  cellx a (ctab c) g y =
+  Some (zsum (map (fun xp => mult g (snd xp) *
+                             (o2m_weight (o2m_k (Z.eqb mode 1) yields) (Z.eqb mode 1) (snd xp) * cellx0 a t (fst xp) y))%Z
+                  (combine (ids a t) yields))).
+Proof. exact PartitionProofs.o2m_value. Qed.
+Print Assumptions o2m_value.
+
+(* 'add': full counts to each group, once per occurrence; divisors are 1 *)
+Theorem o2m_add : forall t a (yields : list (list (Tree * Z))) (raises : list bool) (strict : bool) (key : Tree)
+                         (norm incl : bool) (mode : Z) (c : collapsed),
+  wf t -> collapse_t t a (OneToMany yields raises strict key) norm incl mode = ROk c ->
+  forall g y : Z, mode = 0%Z -> In g (ids a (ctab c)) -> In y (ids (other a) t) ->
+  cellx a (ctab c) g y =
+    Some (zsum (map (fun xp => mult g (snd xp) * cellx0 a t (fst xp) y)%Z (combine (ids a t) yields))) /\
+  cdiv c = repeat 1%Z (length (ids a (ctab c))).
+Proof. exact PartitionProofs.o2m_add. Qed.
+Print Assumptions o2m_add.
+
+(* 'divide': number of pairs * weight = K, i.e. each pair receives counts / number of pairs *)
+Theorem o2m_divide_weight : forall (yields : list (list (Tree * Z))) (mode : Z) (p : list (Tree * Z)),
+  mode = 1%Z -> In p yields -> p <> [] ->
+  (Z.of_nat (length p) * o2m_weight (o2m_k (Z.eqb mode 1) yields) (Z.eqb mode 1) p = o2m_k (Z.eqb mode 1) yields)%Z.
+Proof. exact PartitionProofs.o2m_divide_weight. Qed.
+Print Assumptions o2m_divide_weight.
+
+(* 'divide' conserves every other-axis total when every vector maps to at least one group
+   (numerators sum to K times the original total, every divisor is K) *)
+Theorem o2m_divide_conserves : forall t a (yields : list (list (Tree * Z))) (raises : list bool) (strict : bool) (key : Tree)
+                                      (norm incl : bool) (mode : Z) (c : collapsed),
+  wf t -> collapse_t t a (OneToMany yields raises strict key) norm incl mode = ROk c ->
+  forall y : Z, mode = 1%Z -> length yields = length (ids a t) -> (forall p, In p yields -> p <> []) ->
+  In y (ids (other a) t) ->
+  zsum (map (fun g => cellx0 a (ctab c) g y) (ids a (ctab c))) =
+  (o2m_k (Z.eqb mode 1) yields * zsum (map (fun x => cellx0 a t x y) (ids a t)))%Z.
+Proof. exact PartitionProofs.o2m_divide_conserves. Qed.
+Print Assumptions o2m_divide_conserves.
+
+(* metadata of a group: {key: pathway} for one of the pathways yielded with that group *)
+Theorem o2m_md : forall t a (yields : list (list (Tree * Z))) (raises : list bool) (strict : bool) (key : Tree)
+                        (norm incl : bool) (mode : Z) (c : collapsed),
+  wf t -> collapse_t t a (OneToMany yields raises strict key) norm incl mode = ROk c ->
+  forall g : Z, incl = true -> In g (ids a (ctab c)) ->
+  exists pw p, md_of a (ctab c) g = Some (path_md key pw) /\ In p yields /\ In (pw, g) p.
+Proof. exact PartitionProofs.o2m_md. Qed.
+Print Assumptions o2m_md.
+
+(* refusals of one-to-many: unknown mode (ValueError), norm (AttributeError), an axis without metadata
+   (TypeError from zip(ids, None)), strict with an incomplete pathway (IndexError) *)
+Theorem o2m_refuses : forall t a (yields : list (list (Tree * Z))) (raises : list bool) (strict : bool) (key : Tree)
+                             (norm incl : bool) (mode e : Z),
+  collapse_t t a (OneToMany yields raises strict key) norm incl mode = RErr e <->
+  (mode_ok mode = false /\ e = E_VALUE) \/
+  (mode_ok mode = true /\ norm = true /\ e = E_OTHER) \/
+  (mode_ok mode = true /\ norm = false /\ mds a t = None /\ e = E_TYPE) \/
+  (mode_ok mode = true /\ norm = false /\ mds a t <> None /\ strict = true /\
+   existsb (fun b => b) raises = true /\ e = E_OTHER).
+Proof. exact PartitionProofs.o2m_refuses. Qed.
+Print Assumptions o2m_refuses.
+
+(* ---------------- coherence is preserved, for any arguments ---------------- *)
+Theorem partition_wf : forall t a lab (ignore_none remove_empty : bool) (parts : list (Z * table)),
+  wf t -> partition_t t a lab ignore_none remove_empty = ROk parts -> Forall (fun p => wf (snd p)) parts.
+Proof. exact PartitionProofs.partition_wf. Qed.
+Print Assumptions partition_wf.
+
+Theorem collapse_wf : forall t a (m : collapse_mode) (norm incl : bool) (mode : Z) (c : collapsed),
+  wf t -> collapse_t t a m norm incl mode = ROk c -> wf (ctab c).
+Proof. exact PartitionProofs.collapse_wf. Qed.
+Print Assumptions collapse_wf.
 
 (* ---------------- non-vacuity ---------------- *)
 Local Open Scope Z_scope.
@@ -187,7 +281,19 @@ Example collapse_example :
                   (Some [collapsed_md [110; 130]]) 1) [1]).
 Proof. split; vm_compute; reflexivity. Qed.
 
-(* no label reaches min_group_size: refused by the constructor's size check *)
-Example collapse_below_min_refused :
-  wf exT /\ collapse_t exT Samp (OneToOne (LFun [5; 6; 7; 8]) 2) false true 0 = RErr E_TABLE.
+(* no label reaches min_group_size: the empty table over the complete other axis *)
+Example collapse_below_min_example :
+  wf exT /\
+  collapse_t exT Samp (OneToOne (LFun [5; 6; 7; 8]) 2) false true 0 =
+    ROk (mkC (mkT [10; 20; 30] [] [[]; []; []] (Some [mdG 1; md_empty; mdG 2]) None 1) []).
 Proof. split; [apply wfb_wf; vm_compute; reflexivity|vm_compute; reflexivity]. Qed.
+
+(* one-to-many: sample 110 -> groups 7,7,8 ; 120 -> none ; 130 -> 8 ; 140 -> 7 ; K = lcm(3,1,1) = 3 *)
+Definition pwA : Tree := L [I 4; L [I 65]].
+Definition exYields : list (list (Tree * Z)) := [[(pwA, 7); (pwA, 7); (pwA, 8)]; []; [(pwA, 8)]; [(pwA, 7)]].
+Example o2m_example :
+  collapse_t exT Samp (OneToMany exYields [false; false; false; false] false (L [I 80])) false false 0 =
+    ROk (mkC (mkT [10; 20; 30] [7; 8] [[2; 3]; [5; 0]; [5; 0]] (Some [mdG 1; md_empty; mdG 2]) None 1) [1; 1]) /\
+  collapse_t exT Samp (OneToMany exYields [false; false; false; false] false (L [I 80])) false false 1 =
+    ROk (mkC (mkT [10; 20; 30] [7; 8] [[2; 7]; [15; 0]; [19; 2]] (Some [mdG 1; md_empty; mdG 2]) None 1) [3; 3]).
+Proof. split; vm_compute; reflexivity. Qed.
